@@ -159,8 +159,8 @@ func (w *FileWriter) generateImports(info *GenerationInfo) []string {
 			case "uuid":
 				// UUID validation doesn't need additional imports
 			case "url":
-				// Only URL validation needs net/url, not email
-				imports["net/url"] = true
+				// URL validation happens inside gozod; the generated file itself
+				// never refers to net/url, so importing it would not compile.
 			case "ipv4", "ipv6":
 				// IP validation might need net package
 				imports["net"] = true
